@@ -83,7 +83,8 @@ def q20a(vi: int, ki: int) -> str:
 
 
 # ---------------------------------------------------------------- Q20b one step of set / unset / get on an arbitrary user map
-PRE = [None, "x", 5]
+SETV = ["abc", "3", "no", "", "1", "0", "yes", "x", "5"]
+PRE = [None, "x", 5, True, 0, 1, False]     # 1 == True and 0 == False in Python, but they are different stored values
 
 
 def _q20b(p0, p1, p2, p3, op, ki, vi):
@@ -94,15 +95,19 @@ def _q20b(p0, p1, p2, p3, op, ki, vi):
     for p in pre_sel:
         if not q.in_range(p, len(PRE)):
             return q.SKIP
-    if not (q.in_range(ki, 3) and q.in_range(vi, 4)):
+    if not (q.in_range(ki, 3) and q.in_range(vi, len(SETV))):
+        return q.SKIP
+    if "ki" in q.SHARD and ki != q.SHARD["ki"]:
         return q.SKIP
     user = {"unrelated.key": "keep", "clean_logs": False}
     for i in range(3):
+        if i != ki and pre_sel[i] >= 3:
+            return q.SKIP          # the bool / 0 / 1 values only matter on the key the step addresses
         val = q.pick(PRE, pre_sel[i])
         if val is not None:
             user[keys[i]] = val
     k = q.pick(keys, ki)
-    v = q.pick(["abc", "3", "no", ""], vi)
+    v = q.pick(SETV, vi)
     with q.notrace():
         w = World("slurm")
     w.vfs.add(CONF, 1, json.dumps(user))
@@ -293,8 +298,8 @@ QUERIES = [
      "bound": "unbounded strings (|ns| <= 24, |key| <= 40 stated to the solver): prefix test and slice of get_namespace read from the AST = 'key = ns + \".\" + rest -> rest'; z3 5.1, z3 4.8.12, cvc5 must all answer unsat"},
     {"name": "Q20n", "fn": q20n, "shards": [{}], "timeout": 300, "bound": "key = catalogue prefix %r + two suffix pieces from %r; namespace backend.slurm" % (NS_KEYS, SUFFIX)},
     {"name": "Q20a", "fn": q20a, "shards": [{}], "timeout": 900, "bound": "value catalogue %r x key catalogue %r; set in one invocation, get in the next" % (VALUES, KEYS)},
-    {"name": "Q20b", "fn": q20b, "shards": [{"op": 0}, {"op": 1}, {"op": 2}], "timeout": {"quick": 900, "thorough": 1800},
-     "bound": "arbitrary user map over 3 keys incl. one with a default and two sharing a prefix (each absent, text or int) plus two fixed bystander keys; one step of set (4 values) / unset / get on any of the 3"},
+    {"name": "Q20b", "fn": q20b, "shards": [{"op": 0, "ki": 0}, {"op": 0, "ki": 1}, {"op": 0, "ki": 2}, {"op": 1}, {"op": 2}], "timeout": {"quick": 900, "thorough": 1800},
+     "bound": "arbitrary user map over 3 keys incl. one with a default and two sharing a prefix (each absent, text or int; the addressed key also True/False/0/1) plus two fixed bystander keys; one step of set (9 values incl. '1','0','yes','no') / unset / get on any of the 3"},
     {"name": "Q20p", "fn": q20p, "shards": [{"bf": 0}, {"bf": 1}, {"bf": 2}], "timeout": 900, "bound": "every combination of flag / config / default for backend (3x3), verbosity (3x4 incl. an invalid configured level), colour (3x3x NO_COLOR)"},
     {"name": "Q20r", "fn": q20r, "shards": [{}], "timeout": 900, "bound": "slurm and local backends; log_mode (4), accounting switch (3), host/port (3), one foreign key from 5"},
 ]
